@@ -15,10 +15,11 @@ _WORLD_MODULES = {
     "builder": "worlds.builder",
     "elab": "worlds.elab",
     "ports": "worlds.ports",
+    "csrdec": "worlds.csrdec",
 }
 PROPERTY_WORLD = {
     "C04": "mux", "C05": "mux",
-    "C07": "wbdec", "C10": "wb2csr", "C15": "sram", "C13": "evmon", "C14": "csrevmon", "C11": "fields", "C12": "fields", "C16": "gpio", "C17": "builder", "C19": "elab", "C20": "ports",
+    "C07": "wbdec", "C10": "wb2csr", "C15": "sram", "C13": "evmon", "C14": "csrevmon", "C11": "fields", "C12": "fields", "C16": "gpio", "C17": "builder", "C19": "elab", "C20": "ports", "C06": "csrdec",
     "C08": "arbiter", "C09": "arbiter",
     "C02": "memmap", "C03": "memmap", "C18": "memmap",
 }
